@@ -70,6 +70,10 @@ type Rec struct {
 	PKind  string   `json:"pkind"` // "ok" | "error" | "panic"
 	PMsg   string   `json:"pmsg"`
 	PV     Val      `json:"pv"`
+	// (sx) the caller's slice after the value parsed from it was used (Checksum, SysEx), and what parsing that slice once more gives
+	After  hx.B     `json:"after"`
+	P2Kind string   `json:"p2kind"`
+	P2V    Val      `json:"p2v"`
 	NTried int      `json:"ntried"`
 	NotErr []Corr   `json:"noterr"`
 	Sample []SCorr  `json:"sample"`
@@ -101,10 +105,30 @@ func sxParse(bt []byte) (kind, msg string, pv Val) {
 	return "ok", "", pv
 }
 
+// sxParse2 parses the caller's slice itself (no private copy)
+func sxParse2(bt []byte) (kind, msg string, pv Val) {
+	pv = emptyVal()
+	var m *sysex.Manufacturer
+	var err error
+	p := hx.Catch(func() { m, err = sysex.Parse(bt) })
+	switch {
+	case p != "":
+		return "panic", p, pv
+	case err != nil:
+		return "error", err.Error(), pv
+	case m == nil:
+		return "panic", "nil value without error", pv
+	}
+	pv.Man, pv.Dev, pv.Model, pv.Req = int(m.ManufacturerID), int(m.DeviceID), int(m.ModelID), m.InfoRequest
+	pv.Addr, pv.Data, pv.Size = cp(m.Address[:]), cp(m.SendingData), cp(m.NumReqBytes[:])
+	return "ok", "", pv
+}
+
 func runSx(r *Rec) {
 	r.Ev = "sx"
 	r.PV, r.NotErr, r.Sample = emptyVal(), []Corr{}, []SCorr{}
 	r.TC = hx.B{}
+	r.After, r.P2Kind, r.P2V = hx.B{}, "", emptyVal()
 	m := sysex.Manufacturer{ManufacturerID: sysex.ManufacturerID(r.Man), DeviceID: byte(r.Dev), ModelID: byte(r.Model), InfoRequest: r.Req}
 	copy(m.Address[:], r.Addr)
 	copy(m.NumReqBytes[:], r.Size)
@@ -128,6 +152,20 @@ func runSx(r *Rec) {
 	bt = append([]byte(nil), bt...) // from here on work on a private copy
 	r.Bytes = cp(bt)
 	r.PKind, r.PMsg, r.PV = sxParse(bt)
+	// the way a program uses the parser: it parses ITS slice, works with the value (asks for the checksum, builds the message
+	// again) and still owns the slice afterwards -- it may well parse it again
+	own := append(make([]byte, 0, len(bt)+8), bt...)
+	r.After, r.P2Kind, r.P2V = cp(own), "panic", emptyVal()
+	if p := hx.Catch(func() {
+		m1, err := sysex.Parse(own)
+		if err == nil && m1 != nil {
+			_ = m1.Checksum()
+			_ = m1.SysEx()
+		}
+	}); p == "" {
+		r.After = cp(own)
+		r.P2Kind, _, r.P2V = sxParse2(own)
+	}
 
 	// every single-byte corruption of address, body and checksum (0-based 5 .. len-2), every other 7-bit value
 	n := len(bt)
@@ -172,6 +210,7 @@ func runSx(r *Rec) {
 
 func runMmc(r *Rec) {
 	r.Ev = "mmc"
+	r.After, r.P2Kind, r.P2V = hx.B{}, "", emptyVal()
 	r.PV, r.NotErr, r.Sample = emptyVal(), []Corr{}, []SCorr{}
 	r.Addr, r.Data, r.Size, r.TC = hx.B{}, hx.B{}, hx.B{}, hx.B{}
 	m := mmc.Message{DeviceID: byte(r.Dev), Command: mmc.Command(r.Cmd)}
@@ -205,6 +244,7 @@ var recvGoTo mmc.GoTo
 
 func runLoc(r *Rec) {
 	r.Ev = "loc"
+	r.After, r.P2Kind, r.P2V = hx.B{}, "", emptyVal()
 	r.PV, r.NotErr, r.Sample = emptyVal(), []Corr{}, []SCorr{}
 	r.Addr, r.Data, r.Size = hx.B{}, hx.B{}, hx.B{}
 	if len(r.TC) != 5 {
